@@ -50,7 +50,7 @@ FILES = {
     "util/ssl_.py": ["C07", "C09", "C18"],
     "util/ssl_match_hostname.py": ["C07"],
     "util/proxy.py": ["C09", "C15"],
-    "util/ssltransport.py": ["C09", "C07", "C01"],
+    "util/ssltransport.py": ["C09", "C07", "C01", "C19", "C13", "C03", "C04"],
     "util/url.py": ["C15", "C10", "C05"],
     "util/wait.py": ["C03", "C01", "C02"],
     "util/response.py": ["C12", "C13", "C03"],
